@@ -16,4 +16,5 @@ def obligations(ctx):
     out += pick(allocspec.allocator_step(ctx), [("B-4", "allocator-step"), ("B-4r", "allocator-range")])
     out += pick(allocspec.plan_output_ids(ctx), [("B-5", "fresh-output-id")])
     out += pick(allocspec.allocator_seed(ctx), [("B-6", "allocator-seed")])
+    out += pick(allocspec.allocator_seed_input(ctx), [("B-7", "allocator-seed-input")])
     return out
